@@ -2256,6 +2256,8 @@ def run(ctx):
     _run_specific(ctx)
     from ..rules import generic
     generic.apply(ctx, "C08", stale_modules=())
+    generic.export_keeps_element_axis(ctx, "C08-X0", "area_weight_matrix_faces / volume_weight_matrix_cells take len() of the exported measure "
+                                      "and raise on a surface with a single face (a single cell)")
 
 
 def _generic_rule_texts():
@@ -2264,3 +2266,5 @@ def _generic_rule_texts():
 
 
 RULES.update(_generic_rule_texts())
+RULES["C08-X0"] = ("R-AXIS: the per-element measure exported with as_array() and handed to the mass matrices keeps one entry per element for every "
+                   "element count (as_array squeezes at most the component axis)")
